@@ -15,6 +15,16 @@ from . import common, gen, pertable, _mk
 PID = 'C02'
 
 
+def _tabguard(get):
+    def deco(fn):
+        def case(mdl, what):
+            objs, props, cells = get()
+            return {'kind': f'table:{PID}', 'objects': list(objs), 'properties': list(props),
+                    'table': harness.table_from_model(mdl, cells), 'what': what}
+        return common.guarded(fn, case)
+    return deco
+
+
 def units(tier, seed):
     if tier == 'quick':
         laws = [(n, m) for n in range(1, 6) for m in range(1, 6) if abs(n - m) <= 1]
@@ -28,10 +38,12 @@ def units(tier, seed):
     us += [{'name': f'closure laws {n}x{m}', 'fn': 'unit_laws', 'args': {'n': n, 'm': m}} for n, m in laws]
     us += [{'name': f'getitem {n}x{m}', 'fn': 'unit_getitem', 'args': {'n': n, 'm': m}} for n, m in gi]
     us += _mk.table_units(t)
+    us += _mk.inductive_units(tier) + _mk.skeleton_units(tier, seed)
     return _mk.order(us)
 
 
 unit_kernel = _mk.kernel_unit_for(PID)
+unit_inductive = _mk.inductive_unit_for(PID)
 
 
 def unit_table(args, prefix=(), max_depth=None):
@@ -53,7 +65,7 @@ def unit_laws(args, prefix=(), max_depth=None):
     cells = harness.cell_vars(n, m)
     objs, props = harness.names(n, m)
 
-    @common.guarded
+    @_tabguard(lambda: (objs, props, cells))
     def body():
         cx = core.ctx()
         intents, extents = matrices.Relation('Properties', 'Objects', props, objs, harness.sym_rows(cells))
@@ -99,7 +111,7 @@ def unit_getitem(args, prefix=(), max_depth=None):
     cells = harness.cell_vars(n, m)
     objs, props = harness.names(n, m)
 
-    @common.guarded
+    @_tabguard(lambda: (objs, props, cells))
     def body():
         cx = core.ctx()
         ctx = concepts.Context(objs, props, harness.sym_rows(cells))
